@@ -30,6 +30,9 @@ var c04Setups = []string{"twice", "twice-unforced", "errornode=error", "errornod
 func c04Build(as *rstep.ASpec, setup string) (*core.Spec, error) {
 	spec := as.Raw()
 	switch setup {
+	case "uncompiled":
+		// C06 only: a specification nobody compiled (what a host gets from json.Unmarshal)
+		return spec, nil
 	case "errornode=error":
 		spec.ErrorNode = "error"
 	case "errornode=errh":
@@ -46,6 +49,20 @@ func c04Build(as *rstep.ASpec, setup string) (*core.Spec, error) {
 	case "twice-unforced":
 		if err := spec.Compile(context.Background(), nil, false); err != nil {
 			return nil, err
+		}
+	case "late-source":
+		// C06 only: the sources of the nodes arrived after the specification had been compiled
+		for _, n := range spec.Nodes {
+			if n.ActionSource != nil {
+				n.Action = nil
+			}
+			if n.Branches != nil {
+				for _, b := range n.Branches.Branches {
+					if b.GuardSource != nil {
+						b.Guard = nil
+					}
+				}
+			}
 		}
 	}
 	return spec, nil
